@@ -396,6 +396,8 @@ func paraStyleID(s string) string {
 		return "BodyText"
 	case "quote":
 		return "Quote"
+	case "lead":
+		return "Lead" // based on a bold 16 pt style, with bold switched off again: an ordinary paragraph
 	}
 	return ""
 }
@@ -713,6 +715,7 @@ type StyleDef struct {
 	Bold              bool
 	HalfPts           int // w:sz, 0 = none
 	Italic            bool
+	BoldOff           bool // <w:b w:val="0"/>: the style switches off the bold it inherits (17.3.2.1: a toggle property)
 }
 
 // StyleTable returns the paragraph styles the writer defines for d: the
@@ -727,6 +730,8 @@ func styleTable(d wpmodel.Doc) []StyleDef {
 		// non-heading styles: never bold together with >= 14 pt
 		{ID: "BodyText", Name: "Body Text", BasedOn: "Normal", Outline: -1, HalfPts: 22},
 		{ID: "Quote", Name: "Quote", BasedOn: "Normal", Outline: -1, Italic: true, HalfPts: 24},
+		{ID: "LeadBase", Name: "Lead Base", BasedOn: "Normal", Outline: -1, Bold: true, HalfPts: 32},
+		{ID: "Lead", Name: "Lead", BasedOn: "LeadBase", Outline: -1, BoldOff: true},
 		{ID: "ListParagraph", Name: "List Paragraph", BasedOn: "Normal", Outline: -1},
 		{ID: "Header", Name: "header", BasedOn: "Normal", Outline: -1},
 		{ID: "Footer", Name: "footer", BasedOn: "Normal", Outline: -1},
@@ -824,10 +829,13 @@ func (w *writer) styles() []byte {
 			x.Empty(w.e("outlineLvl"), w.a("val"), strconv.Itoa(s.Outline)) // 17.3.1.20
 			x.Close(w.e("pPr"))
 		}
-		if s.Bold || s.Italic || s.HalfPts > 0 {
+		if s.Bold || s.BoldOff || s.Italic || s.HalfPts > 0 {
 			x.Open(w.e("rPr"))
 			if s.Bold {
 				x.Empty(w.e("b"))
+			}
+			if s.BoldOff {
+				x.Empty(w.e("b"), w.a("val"), []string{"0", "false"}[len(s.ID)%2])
 			}
 			if s.Italic {
 				x.Empty(w.e("i"))
